@@ -25,7 +25,8 @@ Structure of the proof
   follow one from the other and everybody has decided;
 * `rinv_next` / `poised_next`: end of a silent round = start of the next one; `Rot`, `rot_exec`,
   `rot_decides`: silent rounds followed by a round whose leader runs;
-* `hyp_rel`, `rot_rel`: relative timers and the production leader function.
+* `hyp_rel`, `rot_rel`: relative timers and the production leader function; `rot_eager`: the
+  slot-aligned eager-double-linear timer (absolute deadlines: entry skew 0 from the second round on).
 -/
 import CharonV.Proofs.QbftGoodRound
 import CharonV.Model.QbftTimed
@@ -2837,5 +2838,93 @@ theorem rot_rel {slot ty n fifo : Nat} {P : TParams} (hd : P.d = rotDef slot ty 
     exact ⟨hsil k hk, by simp [rotT]; omega⟩
   · have hf := hfit m (Nat.le_refl _)
     exact ⟨hm, by simp [rotT]; omega⟩
+
+/-! ### The slot-aligned eager-double-linear timer -/
+
+/-- aligned end of round `r`: `dutyStart + timeout r` (`C04Timer.eager_first_deadline`). -/
+def eagerEnd (c : RoundTimer.Cfg) (pt : Bool) (g r : Nat) : Nat :=
+  RoundTimer.dutyStart c g + RoundTimer.eagerTimeout c.dutyType pt r
+
+theorem prodTimer_eager_first (c : RoundTimer.Cfg) (pt : Bool) (hk : c.kind = .eager) (g : Nat)
+    (hg : c.genesis = some g) (hs : 0 < c.slotDur) (now r : Nat) :
+    prodTimer c pt none now r = eagerEnd c pt g r := by
+  simp [prodTimer, eagerEnd, RoundTimer.timerCall, hk, RoundTimer.lookup, RoundTimer.eagerFirstDeadline, hg, hs]
+
+theorem prodTimer_eager_again (c : RoundTimer.Cfg) (pt : Bool) (hk : c.kind = .eager) (f now r : Nat) :
+    prodTimer c pt (some f) now r = f + RoundTimer.eagerTimeout c.dutyType pt r := by
+  simp [prodTimer, RoundTimer.timerCall, hk, RoundTimer.lookup]
+
+theorem eagerEnd_succ (c : RoundTimer.Cfg) (pt : Bool) (g r : Nat) :
+    eagerEnd c pt g (r + 1) = eagerEnd c pt g r + 1000000000 := by
+  unfold eagerEnd RoundTimer.eagerTimeout RoundTimer.proposalRoundTimeout RoundTimer.linearRoundTimeout
+    RoundTimer.linearRoundInc RoundTimer.proposalRoundExtra RoundTimer.sec RoundTimer.ms
+  split <;> omega
+
+/-- timing of the rounds under the aligned eager timer: the first one is entered at instants in
+`[E0, E0 + σ0]`, every later one exactly at the aligned end of its predecessor. -/
+def eagerT (c : RoundTimer.Cfg) (pt : Bool) (g ρ0 E0 σ0 B0 k : Nat) : Tm :=
+  if k = 0 then ⟨E0, σ0, eagerEnd c pt g ρ0, 0, B0⟩
+  else ⟨eagerEnd c pt g (ρ0 + k - 1), 0, eagerEnd c pt g (ρ0 + k), 0, B0 + k⟩
+
+theorem rot_eager {slot ty n fifo : Nat} {P : TParams} (hd : P.d = rotDef slot ty n fifo)
+    {c : RoundTimer.Cfg} {pt : Bool} (hk : c.kind = .eager) {g : Nat} (hg : c.genesis = some g)
+    (hs : 0 < c.slotDur) (harm : P.arm = prodTimer c pt) (hR : P.R.Nodup) (hn : 1 ≤ n)
+    (hq : P.d.quorum ≤ P.R.length) (hinp : ∀ p ∈ P.R, P.inp p ≠ 0) {ρ0 : Nat} (hρ0 : 2 ≤ ρ0)
+    (E0 σ0 B0 : Nat) (hσ : σ0 ≤ P.lo) {m : Nat} (hfifo : B0 + m + 4 ≤ fifo)
+    (hfit0 : E0 + σ0 + 4 * P.hi < eagerEnd c pt g ρ0) (hfit : 4 * P.hi < 1000000000)
+    (hm : leaderFn slot ty (ρ0 + m) n ∈ P.R) (hsil : ∀ k, k < m → leaderFn slot ty (ρ0 + k) n ∉ P.R) :
+    Rot P (rotG slot ty n P.inp ρ0) (eagerT c pt g ρ0 E0 σ0 B0) m := by
+  have hsucc : ∀ k, 1 ≤ k → eagerEnd c pt g (ρ0 + k) = eagerEnd c pt g (ρ0 + k - 1) + 1000000000 := by
+    intro k hk1
+    rw [show ρ0 + k = (ρ0 + k - 1) + 1 by omega, eagerEnd_succ]
+    rfl
+  have hwin : ∀ k, (eagerT c pt g ρ0 E0 σ0 B0 k).E + (eagerT c pt g ρ0 E0 σ0 B0 k).σ + 4 * P.hi <
+      (eagerT c pt g ρ0 E0 σ0 B0 k).E' := by
+    intro k
+    unfold eagerT
+    by_cases hk0 : k = 0
+    · rw [if_pos hk0]; simpa [hk0] using hfit0
+    · rw [if_neg hk0]; simp only; have := hsucc k (by omega); omega
+  have hE' : ∀ k, (eagerT c pt g ρ0 E0 σ0 B0 k).E' = eagerEnd c pt g (ρ0 + k) := by
+    intro k; unfold eagerT; split
+    · rename_i h; subst h; rfl
+    · rfl
+  have hσ' : ∀ k, (eagerT c pt g ρ0 E0 σ0 B0 k).σ' = 0 := by
+    intro k; unfold eagerT; split <;> rfl
+  have hB : ∀ k, (eagerT c pt g ρ0 E0 σ0 B0 k).B = B0 + k := by
+    intro k; unfold eagerT; split
+    · rename_i h; subst h; rfl
+    · rfl
+  have hσle : ∀ k, (eagerT c pt g ρ0 E0 σ0 B0 k).σ ≤ P.lo := by
+    intro k; unfold eagerT; split
+    · exact hσ
+    · exact Nat.zero_le _
+  refine ⟨?_, fun k => by simp [rotG]; omega, ?_, ?_, ?_, ?_, ?_, hq⟩
+  · intro k hk'
+    have hw := hwin k
+    refine ⟨hR, by rw [hd]; exact hn, by simp [rotG]; omega, by rw [hd]; rfl,
+      fun hl => ⟨rfl, hinp _ hl⟩, ?_, ?_, by omega, hσle k, ?_⟩
+    · intro now _ _
+      rw [harm, prodTimer_eager_first c pt hk g hg hs, hE', hσ']
+      exact ⟨Nat.le_refl _, Nat.le_refl _⟩
+    · intro fd now h1 _
+      rw [harm, prodTimer_eager_again c pt hk]
+      omega
+    · rw [hB, hd]; simp [rotDef]; omega
+  · intro k
+    rw [hE']
+    unfold eagerT
+    rw [if_neg (by omega)]
+    simp
+  · intro k
+    rw [hσ']
+    unfold eagerT
+    rw [if_neg (by omega)]
+  · intro k
+    rw [hB, hB]; omega
+  · intro k hk'
+    have := hwin k
+    exact ⟨hsil k hk', by omega⟩
+  · exact ⟨hm, hwin m⟩
 
 end CharonV.Qbft
